@@ -78,6 +78,8 @@ func (multi *MultiEpoch) findEpochNumberFromSignature(ctx context.Context, sig s
 			}
 			if _, err := epoch.FindCidFromSignature(ctx, sig); err == nil {
 				return epochNumber, nil
+			} else if !compactindexsized.IsNotFound(err) {
+				return 0, fmt.Errorf("failed to look up signature in epoch %d: %w", epochNumber, err)
 			}
 			// Not found in this epoch.
 			return 0, ErrNotFound
